@@ -14,7 +14,9 @@ ENG = {"wrap": "stand-alone executable from nano_virt -o", "vm": "nano_virt --ru
        "eval": "nanoc evaluator (shadow block)"}
 CLS = {"neg": "index -1", "len": "index == length", "len+1": "index == length+1", "2^31": "index 2^31",
        "2^32+k": "index 2^32+k, k < length (2^32 for the empty array)", "int64max": "index 2^63-1",
-       "int64min": "index -2^63", "empty": "no element left"}
+       "int64min": "index -2^63", "empty": "no element left", "ord>=len": "enum-typed index, ordinal >= length",
+       "in-cap": "length < index < capacity of the store", "cap": "index == capacity", "cap+1": "index == capacity+1",
+       "in-2cap": "capacity < index < 2*capacity (full store)", "2cap": "index == 2*capacity", "2cap+1": "index == 2*capacity+1"}
 OBS = {"continued": "the program continues (value/marker and AFTER printed)",
        "value": "a void value is handed to the program, which goes on to use it (VALUE printed; the run only ends at the next field access)",
        "exit0": "exit status 0"}
